@@ -158,6 +158,24 @@ def reg_lines(rng):
             pd, reg = regsim.build(s)
             P = impl.RegPolicy(**pd)
             out.append((f"reg real-clock nothing-substituted anchored chain, leaf {what}/{fmt}", impl.outcome(lambda: webauthn.verify_registration_response(credential=reg.as_dict(), **P.kwargs()), impl.pr_verified_reg)[:60]))
+    # chain faults that do not depend on the clock, on chains dated around the REAL present and verified with nothing substituted: a verification path that does not go
+    # through the certificate-store seam (a fallback for hosts without pyOpenSSL, another library) is still judged
+    for name in ("non-ca-intermediate", "impostor-root-same-name", "corrupted-signature", "missing-intermediate", "path-length-exceeded", "proxy-certificate-issued-by-an-end-entity-certificate", "attacker-ca-first-genuine-chain-as-intermediates"):
+        for fmt in ("packed", "tpm"):
+            try:
+                s = regsim.RScn(fmt, "ES256-P256")
+                s.pki_tag = "RT"
+                s.n_inter = 1
+                s.now = now
+                s.k["pki_kw"] = dict(root_nb=now - 1000 * D, root_na=now + 1000 * D, inter_nb=now - 500 * D, inter_na=now + 100 * D)
+                s.k["leaf_nb"], s.k["leaf_na"] = now - D, now + D
+                regcat.CHAIN_FAULTS[name](s, random.Random(7))
+                s.k["pki_kw"] = dict(dict(root_nb=now - 1000 * D, root_na=now + 1000 * D, inter_nb=now - 500 * D, inter_na=now + 100 * D), **{k_: v_ for k_, v_ in s.k.get("pki_kw", {}).items() if not k_.endswith(("_nb", "_na"))})
+                pd, reg = regsim.build(s)
+                P = impl.RegPolicy(**pd)
+                out.append((f"reg real-clock nothing-substituted chain fault {name}/{fmt}", impl.outcome(lambda: webauthn.verify_registration_response(credential=reg.as_dict(), **P.kwargs()), impl.pr_verified_reg)[:60]))
+            except Exception as e:
+                out.append((f"reg real-clock nothing-substituted chain fault {name}/{fmt}", "HARNESS " + type(e).__name__))
     for fmt in ("packed", "android-safetynet", "apple"):
         for name, f in regcat.CHAIN_FAULTS.items():
             s = regsim.RScn(fmt, "ES256-P256")
